@@ -1,6 +1,6 @@
 SPECIFICATION TSpec
 CONSTANTS
-  Reflective = {"component", "field"}
+  Reflective = {"component", "field", "field_paged", "field_missing"}
 INVARIANT OneHandler
 CONSTRAINT Mark
 POSTCONDITION TraceAccepted
